@@ -3,6 +3,7 @@ package sched
 import (
 	"bytes"
 	"compress/flate"
+	"encoding/base64"
 	"fmt"
 	"io"
 	"strings"
@@ -688,6 +689,10 @@ func c07WSetup(prm c07WParams) func(c *fw.Ctx, name string) explore.Setup {
 						_, err := websocket.NetConn(bg, conn, websocket.MessageBinary).Write(p)
 						return err
 					}
+					if prm.Prop == "C19" {
+						// one JSON string per message (the payload bytes are JSON-safe in this mode)
+						return wsjson.Write(bg, conn, string(p))
+					}
 					return conn.Write(bg, websocket.MessageBinary, p)
 				}
 				payloadA := bytes.Repeat([]byte{'A'}, sizeA)
@@ -695,6 +700,9 @@ func c07WSetup(prm c07WParams) func(c *fw.Ctx, name string) explore.Setup {
 					// bytes that do not compress: the deflate output is larger than the write
 					// buffer, so A's writer parks in the transport inside its compressor
 					payloadA = c07Noise
+					if prm.Prop == "C19" {
+						payloadA = []byte(base64.StdEncoding.EncodeToString(c07Noise))
+					}
 				}
 				if prm.CloseFrame {
 					pa.Window = 1
@@ -731,7 +739,11 @@ func c07WSetup(prm c07WParams) func(c *fw.Ctx, name string) explore.Setup {
 						nB = 1
 					}
 					for i := 0; i < nB; i++ {
-						bErrs = append(bErrs, write(b, bytes.Repeat([]byte{'B'}, 300)))
+						nb := 300
+						if prm.Prop == "C19" {
+							nb = 298 // + the two quotes of the JSON string
+						}
+						bErrs = append(bErrs, write(b, bytes.Repeat([]byte{'B'}, nb)))
 					}
 					if prm.Prop == "C16" {
 						b.Close(websocket.StatusNormalClosure, "") // the peer never answers: 5 s virtual
@@ -807,6 +819,10 @@ func c07WSetup(prm c07WParams) func(c *fw.Ctx, name string) explore.Setup {
 						}
 						res.Messages[i].Payload = pl
 						m.Payload = pl
+					}
+					if prm.Prop == "C19" {
+						m.Payload = bytes.Trim(bytes.TrimSpace(m.Payload), "\"")
+						res.Messages[i].Payload = append([]byte("\"\""), m.Payload...) // 300 bytes again for the length rule below
 					}
 					for _, by := range m.Payload {
 						if by != 'B' {
@@ -892,7 +908,7 @@ func c07CrossScenarios(prop string) func(tier string) []scenario {
 	return func(tier string) []scenario {
 		var scs []scenario
 		ks := []connCfg{{Client: true}, {Client: false}}
-		if prop == "C14" {
+		if prop == "C14" || prop == "C19" {
 			// compressed connections: the pooled compressor instead of the pooled write buffer
 			ks = []connCfg{{Client: false, Flate: true, Thr: 1}, {Client: true, Flate: true, Thr: 1, CNCT: true, SNCT: true}}
 		}
@@ -902,11 +918,16 @@ func c07CrossScenarios(prop string) func(tier string) []scenario {
 			if tier == "thorough" && !k.Flate {
 				pw.P = 2 // (the compressed histories take 70 k executions at one preemption already)
 			}
-			scs = append(scs, scenario{Name: prm.name(), Cfg: pw, Setup: c07WSetup(prm)})
+			if prop != "C19" || !k.Client || tier == "thorough" {
+				scs = append(scs, scenario{Name: prm.name(), Cfg: pw, Setup: c07WSetup(prm)})
+			}
 			if k.Client {
 				prm.Sep = true
 				scs = append(scs, scenario{Name: prm.name(), Cfg: pw, Setup: c07WSetup(prm)})
 				prm.Sep = false
+			}
+			if prop == "C19" && tier != "thorough" {
+				continue // (quick: the two histories in which the closing and the opening task are separate)
 			}
 			prm.Cross = true
 			scs = append(scs, scenario{Name: prm.name(), Cfg: pw, Setup: c07WSetup(prm)})
@@ -1081,7 +1102,7 @@ func c07RaceScenarios(tier string) []scenario {
 }
 
 func init() {
-	for _, prop := range []string{"C01", "C02", "C05", "C06", "C14", "C16", "C18"} {
+	for _, prop := range []string{"C01", "C02", "C05", "C06", "C14", "C16", "C18", "C19"} {
 		scs := c07CrossScenarios(prop)
 		fw.Register(fw.Part{Prop: prop, Name: "s.xconn",
 			Units:  func(tier string) []fw.Unit { return scenarioUnits(scs(tier)) },
